@@ -41,15 +41,11 @@ F = [
       kinds=['exception_saved', 'saved_more_than_once', 'write_once_store_failed_run', 'recurrent_marker_saved', 'saved_value_not_final'],
       mechanism='the contained exception of a losing one-of candidate is saved as that node\'s artifact (manager.py 333-340 + 645-649)',
       witness={'C19': 'witnesses/KF-STORE-CAND.json'}),
- dict(id='KF-STORE-DUP', family='node_in_two_scopes', properties=['C19'],
-      kinds=['saved_more_than_once', 'write_once_store_failed_run'],
-      mechanism='a node requested by two sub-pipeline scopes: the late-arriving duplicate request re-stores and re-saves the already computed '
-                'result (manager.py 309-314 -> 645-649), so a write-once store fails the run',
-      witness={'C19': 'witnesses/KF-STORE-DUP.json'}),
 ]
 for f in F:
     f['status'] = 'open'
 FIXED = [
+ 'fixed: property=C19 d9926cd a late duplicate request for an already executed node re-saved its result: a write-once store failed an otherwise correct run (witnesses/D24.json)',
  'fixed: property=C10 eeef9a0 a failure inside a switch case inside a one-of candidate: consumer invoked with the exception instance / hang (witnesses/D11.json); also C02 C03 C05',
  'fixed: property=C10 993066e started one-of candidates stayed visible in every later reduced DAG: healthy candidate declared failed, candidate executed by a foreign scope (witnesses/D21.json); also C01 C05',
  'fixed: property=C05 26f721c all-fail one-of in a switch case inside a candidate ended the whole run with OneOfDoesNotHaveResultError (witnesses/D22.json); also C10',
